@@ -118,6 +118,13 @@ Dispatch(i) ==
   /\ UNCHANGED <<now, tx, execAt, rowCap, imj, lcap, alive, ans>> /\ UnchangedInv /\ UnchangedPoll
   /\ ev' = [a |-> "Dispatch", i |-> i]
 
+\* the dispatcher is woken although nothing on its heap is due (another schedule() call notifies the condition, a spurious
+\* wake-up): it computes the delay of the top job again and goes back to sleep - no effect
+Wake(i) ==
+  /\ Up(i) /\ heap[i] # {} /\ \A j \in heap[i] : execAt[j] > now
+  /\ UNCHANGED <<obsvars, heap, mpc, pollq, pstage, pcap>>
+  /\ ev' = [a |-> "Wake", i |-> i]
+
 \* _capture_scheduled_job: UPDATE ... SET captured_at = now WHERE id = j AND captured_at = <value last seen>
 MemCapture(i, j) ==
   /\ Up(i) /\ mpc[i][j] = "popped"
@@ -222,7 +229,7 @@ Tick ==
 Next == \/ \E i \in Inst, j \in Jobs, c \in BOOLEAN : Schedule(i, j, c)
         \/ \E i \in Inst, j \in Jobs : Begin(i, j) \/ MemCapture(i, j) \/ MemInvoke(i, j) \/ MemDelete(i, j)
         \/ \E j \in Jobs : Commit(j) \/ Rollback(j)
-        \/ \E i \in Inst : Dispatch(i) \/ PollNothing(i) \/ Poll(i) \/ PollInvoke(i) \/ PollDelete(i) \/ Crash(i)
+        \/ \E i \in Inst : Dispatch(i) \/ Wake(i) \/ PollNothing(i) \/ Poll(i) \/ PollInvoke(i) \/ PollDelete(i) \/ Crash(i)
         \/ Tick
 
 Progress(i) == \/ \E j \in Jobs : MemCapture(i, j) \/ MemInvoke(i, j) \/ MemDelete(i, j)
